@@ -165,6 +165,16 @@ func (c *Cluster) ByzAct(a *Actor, which string) {
 	q := c.W.Q()
 	hq := st.highQC()
 	view := st.maxView
+	// a Byzantine leader proposes in a view it actually leads (the rotation is public); now and then it
+	// deliberately proposes in a view it does not lead
+	if !c.Rng.Chance(1, 6) {
+		for d := hotstuff.View(0); d < hotstuff.View(3*c.Cfg.N); d++ {
+			if c.publicLeader(view+d) == a.ID {
+				view += d
+				break
+			}
+		}
+	}
 	fhs := c.Cfg.Ruleset == rules.NameFastHotStuff
 	c.ByzActs++
 	c.trace(TraceEntry{Kind: "byz", From: a.Name(), What: which, View: uint64(view)})
@@ -334,6 +344,16 @@ func (c *Cluster) ByzAct(a *Actor, which string) {
 	default:
 		panic("unknown byz action " + which)
 	}
+}
+
+// publicLeader answers the (static) leader schedule, as any replica can compute it.
+func (c *Cluster) publicLeader(v hotstuff.View) hotstuff.ID {
+	for _, o := range c.Actors {
+		if o.Node != nil {
+			return o.Node.LR.Inner.GetLeader(v)
+		}
+	}
+	return 0
 }
 
 func (c *Cluster) byzVote(a *Actor, which string) {
